@@ -69,7 +69,7 @@ theorem desc_raceFree_sound (l : Loop) (hl : l.raceFree = true) (fx : String →
   desc_raceFree l hl fx prog hconf
 
 /-- non-vacuity of `desc_raceFree_sound`: the descriptor passes, and a two-iteration instance conforms -/
-example : pushInitLoop.raceFree = true := by decide
+example : pushInitLoop.raceFree = true ∧ trianglesLoop.raceFree = true ∧ trianglesLoop.inexactReductions = [] := by decide
 
 /-- **Schedule independence of a checked `prange` loop.** -/
 theorem prange_schedule_independent (l : Loop) (hl : l.raceFree = true) (fx : String → Nat)
